@@ -75,8 +75,16 @@ func c06Run(r *core.Run) {
 	A.RootSpec.Win = poolWin
 	A.Rebuild()
 	w.Pool = world.Pool(A.Root)
-	plat := func(win world.Window) *world.Cert { s := A.PlatSpec; s.Win = win; return world.Issue(s, A.PlatKey, A.Root, A.RootKey) }
-	tcbs := func(win world.Window) *world.Cert { s := A.TcbSpec; s.Win = win; return world.Issue(s, A.TcbKey, A.Root, A.RootKey) }
+	plat := func(win world.Window) *world.Cert {
+		s := A.PlatSpec
+		s.Win = win
+		return world.Issue(s, A.PlatKey, A.Root, A.RootKey)
+	}
+	tcbs := func(win world.Window) *world.Cert {
+		s := A.TcbSpec
+		s.Win = win
+		return world.Issue(s, A.TcbKey, A.Root, A.RootKey)
+	}
 
 	arts := make([]c06Artifact, 13)
 	// PCK chain
